@@ -67,6 +67,27 @@ def parse_sanitizer_log(paths):
     return reports
 
 
+def parse_valgrind_log(paths):
+    reports = []
+    for p in paths:
+        try:
+            txt = open(p, errors='replace').read()
+        except OSError:
+            continue
+        for b in re.split(r'(?m)^==\d+== (?=Invalid |Conditional jump|Use of uninit|Syscall param)', txt)[1:]:
+            first = b.splitlines()[0]
+            frames = re.findall(r'(?:at|by) 0x[0-9A-F]+: (\S+)', b.split('Address 0x')[0])
+            kind = 'invalid-' + ('write' if 'write' in first else 'read') if first.startswith('Invalid') else re.sub(r'[^a-z]+', '-', first.lower())[:30]
+            freed = []
+            if "free'd" in b:
+                kind = 'heap-use-after-free'
+                freed = re.findall(r'(?:at|by) 0x[0-9A-F]+: (\S+)', b.split("free'd")[1])[:8]
+            elif "on thread" in b and 'stack' in b:
+                kind = 'stack-use-after-return'
+            reports.append(dict(tool='asan', kind=kind, frames=frames, freed_by=freed, text='valgrind memcheck: ' + b[:5000], path=p))
+    return reports
+
+
 INTERNAL_FRAMES = re.compile(r'^(__|_start|start_thread|clone|worker|main$|body$|rt_|nsync_verif_|__interceptor|__asan|__tsan|__sanitizer|operator)')
 
 
@@ -166,6 +187,8 @@ class Run:
             base = os.path.join(self.workdir, '%s-%d' % (proc.tag, n))
             summary, witness, hashes = base + '.summary.json', base + '.witness.json', base + '.hashes'
             argv = self.argv(proc, start, remaining, seed, summary, witness, hashes)
+            if proc.group.get('valgrind'):
+                argv = ['valgrind', '-q', '--error-exitcode=%d' % RC_ASAN, '--num-callers=14', '--log-file=' + base + '.vg'] + argv
             t0 = time.time()
             try:
                 p = subprocess.run(argv, env=self.env(proc, base), stdout=subprocess.PIPE, stderr=subprocess.PIPE,
@@ -235,6 +258,8 @@ class Run:
                 what = '%s [%s mode %s seed %s round %s]: %s' % (w.get('oracle'), proc.group['variant'], proc.group['mode'], seed, fail_round, w.get('detail', ''))
             else:
                 reports = parse_sanitizer_log(sanlogs)
+                if not reports and proc.group.get('valgrind'):
+                    reports = parse_valgrind_log(glob.glob(base + '.vg*'))
                 if reports:
                     r = reports[0]
                     sig = report_signature(r)
@@ -405,7 +430,7 @@ def replay(prop, path):
              wraps=c.get('wraps', []), procs=1, rounds=1)
     full = plans.find_group(prop, c)
     if full:
-        for k in ('cflags', 'owners', 'env', 'quarantine_mb', 'ldflags'):
+        for k in ('cflags', 'owners', 'env', 'quarantine_mb', 'ldflags', 'valgrind'):
             if k in full:
                 g[k] = full[k]
     run = Run(prop, c.get('tier', 'quick'), c.get('verif_seed', 1), [g])
